@@ -7,6 +7,7 @@ import (
 	"math/rand"
 	"os"
 	"path/filepath"
+	"regexp"
 	"strings"
 )
 
@@ -36,6 +37,17 @@ func main() {
 
 var extraCmds = map[string]func([]string){}
 
+// Fresh pass. The scenario generators put their history-sensitive sequences (calls that differ in one argument,
+// a refused call followed by a good one, spellings a normalising memo would identify) after the bulk enumerations,
+// i.e. after thousands of other calls. Whatever an implementation remembers between calls may by then be full
+// (a bounded memo) or otherwise settled, and the sequences no longer show anything. In the fresh pass the same
+// generator runs in a new process, but only the calls of those sequences (and the calls whose results they
+// use) reach the library, so that they are its first calls. Their scenario keys carry the prefix "F:".
+var (
+	freshMode bool
+	freshRe   = regexp.MustCompile(`sib|poison|near/|norm/|/seq|lead/|/fail/|C07/bad/|hist`)
+)
+
 func cmdGen(args []string) {
 	fs := flag.NewFlagSet("gen", flag.ExitOnError)
 	prop := fs.String("prop", "", "property id")
@@ -44,14 +56,20 @@ func cmdGen(args []string) {
 	out := fs.String("out", "", "output directory")
 	per := fs.Int("per-shard", 2500, "events per trace shard")
 	only := fs.String("only", "", "replay: only the scenario with this key")
+	fresh := fs.Bool("fresh", false, "fresh pass: execute only the history-sensitive sequences of the scenario")
 	fs.Parse(args)
+	freshMode = *fresh
 	fn, ok := scenarios[*prop]
 	if !ok {
 		fmt.Fprintln(os.Stderr, "no scenario generator for", *prop)
 		os.Exit(2)
 	}
 	installHooks()
-	rec := NewRecorder(*out, "trace", *per)
+	prefix := "trace"
+	if freshMode {
+		prefix = "fresh"
+	}
+	rec := NewRecorder(*out, prefix, *per)
 	if *only != "" {
 		rec.only = map[string]bool{}
 		for _, k := range strings.Split(*only, "\x1f") {
